@@ -344,6 +344,7 @@ pub fn rw_chain(r: &R, e: &Expr) -> Option<String> {
     let loop_attr_s = format!("{}#[verifier::loop_isolation(false)]", pbefore);
     let loop_attr = loop_attr_s.as_str();
     let pafter = spec.opts.get("pafter").map(|t| format!("proof {{ {} }}\n    ", t)).unwrap_or_default();
+    let pend = spec.opts.get("pend").map(|t| format!("        proof {{ {} }}\n", t)).unwrap_or_default();
     let cond_all = |g: &Vec<String>, body: String| -> String {
         if g.is_empty() {
             body
@@ -455,6 +456,7 @@ pub fn rw_chain(r: &R, e: &Expr) -> Option<String> {
                     s.push_str(&format!("        {} = qx_t{}.{};\n", a, k, j));
                 }
             }
+            s.push_str(&pend);
             s.push_str(&format!("        {} = {} + 1;\n    }}\n    {}{}\n}})", i, i, pafter, acc_expr));
         }
         "collect" => {
@@ -499,7 +501,8 @@ pub fn rw_chain(r: &R, e: &Expr) -> Option<String> {
                 Some(f) => format!("{}({})", f, res),
                 None => res.clone(),
             };
-            s.push_str(&format!("        {} = {} + 1;\n    }}\n    {}\n}})", i, i, fin));
+            s.push_str(&pend);
+            s.push_str(&format!("        {} = {} + 1;\n    }}\n    {}{}\n}})", i, i, pafter, fin));
         }
         other => {
             r.err(format!("unsupported terminal `.{}()`", other));
